@@ -41,7 +41,7 @@ def mc_summary(mcs):
 POT_TIER = {
     "quick": dict(mc=[dict(NPs="{2,3,4}", MaxC="3", MaxS="2")], enum=dict(n="2,3,4", cmax=3, smax=2, random=400), engine_runs=500, fork_runs=0),
     "thorough": dict(mc=[dict(NPs="{2,3,4}", MaxC="4", MaxS="3"), dict(NPs="{5}", MaxC="3", MaxS="2"), dict(NPs="{6}", MaxC="2", MaxS="2")],
-                     enum=dict(n="2,3,4,5", cmax=3, smax=2, random=20000), engine_runs=8000, fork_runs=300),
+                     enum=dict(n="2,3,4,5", cmax=3, smax=2, random=20000), engine_runs=4000, fork_runs=300),
 }
 
 
@@ -76,6 +76,7 @@ def pots_check(prop, tier, seed, work, replay):
     pfile = os.path.join(d, "pots.ndjson")
     e = T["enum"]
     pst = vlib.drive(binary, ["pots-enum", "-n", e["n"], "-cmax", e["cmax"], "-smax", e["smax"], "-random", e["random"], "-seed", seed,
+                              "-ties", 6 if tier == "quick" else 9,
                               "-o", pfile, "-what", "pots,settle" if prop == "C02" else "pots"], timeout=3600)
     pres = vlib.validate(work, [pfile], "PotTrace.tla", [prop], nchunks=max(4, vlib.NCPU // 2), heap="3g", independent=True)
     log("[val] package level: %d lines, %d failed clauses, %d drift, %.0fs" % (pres["lines"], len(pres["viol"]), len(pres["drift"]), pres["tlc_s"]))
@@ -85,7 +86,7 @@ def pots_check(prop, tier, seed, work, replay):
     dr.random("random", T["engine_runs"], seed * 1000 + 5, [], runbase=0)
     dr.explore("explore", ec.CMP_SCOPE)
     simfile = os.path.join(dr.d, "sim.scripts")
-    nsim = ec.sim_scripts(work, 150 if tier == "quick" else 2000, seed, simfile, 5000000)
+    nsim = ec.sim_scripts(work, 150 if tier == "quick" else 1000, seed, simfile, 5000000)
     dr.replay("sim", simfile, finish=True, seed=seed)
     eres = vlib.validate(work, sorted(dr.files), "HoldemTrace.tla", [prop], nchunks=max(4, vlib.NCPU // 2), heap="3g")
     log("[val] engine level: %d lines, %d failed clauses, %d drift, %.0fs" % (eres["lines"], len(eres["viol"]), len(eres["drift"]), eres["tlc_s"]))
@@ -257,10 +258,10 @@ def besthand_check(prop, tier, seed, work, replay):
     q = tier == "quick"
     mcs = [generic_mc(work, "MCRank.tla", "mcrank0", dict(RankSet="{2,3,4,5,6,14}", Tables='{"standard","short"}'), invariants=["Iso"])]
     dr = ec.Drive(work, binary)
-    dr.generic("deal", "holdem-deal", ["-runs", 260 if q else 12000, "-seed", seed])
-    dr.random("random", 220 if q else 8000, seed * 1000 + 11, [], runbase=0)
+    dr.generic("deal", "holdem-deal", ["-runs", 260 if q else 6000, "-seed", seed])
+    dr.random("random", 220 if q else 3000, seed * 1000 + 11, [], runbase=0)
     simfile = os.path.join(dr.d, "sim.scripts")
-    nsim = ec.sim_scripts(work, 60 if q else 1500, seed, simfile, 5000000)
+    nsim = ec.sim_scripts(work, 60 if q else 600, seed, simfile, 5000000)
     dr.replay("sim", simfile, finish=True, seed=seed)
     res = vlib.validate(work, sorted(dr.files), "HoldemTrace.tla", [prop], nchunks=max(4, vlib.NCPU // 2), heap="3g", timeout=3600)
     log("[val] %d lines, %d failed clauses, %d drift, %.0fs" % (res["lines"], len(res["viol"]), len(res["drift"]), res["tlc_s"]))
@@ -305,7 +306,7 @@ SEAT_TIER = {
                   random_runs=400, steps=70, sim_num=200, conc_runs=150),
     "thorough": dict(mc=[(3, "{1,2,3,4}"), (4, "{1,2,3,4,5}"), (5, "{1,2,3,4,5,6}")], explore=[(3, 4, []), (4, 5, ["-emit", "changing"])],
                      anon=[(5, ["-emit", "changing"]), (6, ["-emit", "next", "-sample", "6"])],
-                     random_runs=12000, steps=90, sim_num=3000, conc_runs=3000),
+                     random_runs=5000, steps=90, sim_num=300, conc_runs=3000),
 }
 SEAT_IGNORE = '{"C08.lateJoiner.seatVacatedSinceBlindsSet"}'     # known finding F8: reported from real traces, not from the model
 
@@ -490,8 +491,8 @@ for _p in ("C08", "C17", "C18"):
 # ------------------------------------------------------------------ C09 / C19 / C20
 REG_TIER = {
     "quick": dict(mc=[(3, 2, 7), (3, 3, 7)], live=(3, 2, 5), random_runs=500, steps=45, sweep=["-maxmax", "6", "-stride", "2"], sim_num=12),
-    "thorough": dict(mc=[(2, 2, 6), (3, 2, 7), (3, 3, 8), (4, 3, 9), (4, 2, 9)], live=(3, 2, 6), random_runs=15000, steps=60,
-                     sweep=["-maxmax", "10", "-stride", "1"], sim_num=2500),
+    "thorough": dict(mc=[(2, 2, 6), (3, 2, 7), (3, 3, 8), (4, 3, 9), (4, 2, 9)], live=(3, 2, 6), random_runs=4000, steps=60,
+                     sweep=["-maxmax", "10", "-stride", "1"], sim_num=120),
 }
 
 
@@ -639,7 +640,9 @@ def scripts_for(work, binary, seed, runs, sim_num, flags=("-rehydrate", "6")):
     return both, nsim
 
 
-def line_check(prop, tier, seed, work, replay, module, driver, driver_flags, mc_fn, need, independent, assumptions, explanation):
+def line_check(prop, tier, seed, work, replay, module, driver, driver_flags, mc_fn, need, independent, assumptions, explanation,
+               extra=None):
+    """extra: optional (driver subcommand, args, trace module): a self-contained seeded driver whose lines are judged too"""
     t0 = time.time()
     binary = vlib.build_harness(work)
     q = tier == "quick"
@@ -652,6 +655,15 @@ def line_check(prop, tier, seed, work, replay, module, driver, driver_flags, mc_
     if replay:
         desc = json.load(open(replay))
         d = work.sub("replay")
+        if desc.get("kind") == "driver":
+            out = os.path.join(d, "out.ndjson")
+            vlib.drive(binary, desc["args"] + ["-o", out], timeout=3600)
+            r = vlib.validate(work, [out], desc["module"], [prop], nchunks=4, heap="3g")
+            if any(x["clause"] == desc["clause"] for x in r["viol"]):
+                print("VIOLATION property=%s replay=%s" % (prop, replay))
+                return 1
+            print("replay of %s: clause %s holds" % (replay, desc["clause"]))
+            return 0
         sp = os.path.join(d, "s.scripts")
         open(sp, "w").write(json.dumps(desc["script"]) + "\n")
         out, _ = run_on(sp, d, driver_flags)
@@ -666,16 +678,36 @@ def line_check(prop, tier, seed, work, replay, module, driver, driver_flags, mc_
     for m in mcs:
         if not m["ok"]:
             print("MODEL-NOTE: %s violated in the MODEL (%s): not a verdict (R1)" % (prop, m["violated"]))
-    scripts, nsim = scripts_for(work, binary, seed, 260 if q else 6000, 60 if q else 1500)
+    scripts, nsim = scripts_for(work, binary, seed, 260 if q else 3000, 60 if q else 600)
     d = work.sub("lines")
     out, st = run_on(scripts, d, driver_flags)
     res = vlib.validate(work, [out], module, [prop], nchunks=max(4, vlib.NCPU // 2), heap="3g", independent=independent, timeout=3600)
     log("[val] %d lines, %d failed clauses, %d drift, %.0fs" % (res["lines"], len(res["viol"]), len(res["drift"]), res["tlc_s"]))
+    xout, xst = None, None
+    if extra:
+        xdriver, xargs, xmodule = extra
+        xout = os.path.join(d, "extra.ndjson")
+        xfull = [xdriver] + [str(a) for a in xargs]
+        xst = vlib.drive(binary, xfull + ["-o", xout], timeout=3600)
+        xres = vlib.validate(work, [xout], xmodule, [prop], nchunks=max(4, vlib.NCPU // 2), heap="3g", timeout=3600)
+        log("[val] %s: %d lines, %d failed clauses, %d drift" % (xdriver, xres["lines"], len(xres["viol"]), len(xres["drift"])))
+        res["viol"] += xres["viol"]
+        res["drift"] += xres["drift"]
+        res["lines"] += xres["lines"]
+        for k, c in xres["cnt"].items():
+            res["cnt"][k] = res["cnt"].get(k, 0) + c
 
     def sig(v, line, rs):
         return "%s|op=%s" % (v["clause"], (line or {}).get("op"))
 
     def repro(v, line, rs):
+        if v["src"] == xout:
+            dd = work.sub("repro")
+            o2 = os.path.join(dd, "out.ndjson")
+            vlib.drive(binary, xfull + ["-o", o2], timeout=3600)
+            r = vlib.validate(work, [o2], extra[2], [prop], nchunks=4, heap="3g")
+            return any(x["clause"] == v["clause"] for x in r["viol"]), dict(kind="driver", clause=v["clause"], args=xfull, module=extra[2],
+                                                                              failing_line={k: line[k] for k in line if k in ("op", "seat", "x", "run", "err", "stuck")})
         s = ec.find_script(scripts, line["run"])
         if s is None:
             return False, None
@@ -699,7 +731,7 @@ def line_check(prop, tier, seed, work, replay, module, driver, driver_flags, mc_
         "traces_validated_against_impl": int(st.get("runs", 0)),
         "samples": samples,
         "model_checking": mc_summary(mcs),
-        "real_lines_validated": res["lines"], "driver": st, "tlc_scripts": nsim,
+        "real_lines_validated": res["lines"], "driver": st, "extra_driver": xst, "tlc_scripts": nsim,
         "antecedents_exercised_on_real_code": cnt,
         "model_drift_lines": len(res["drift"]), "known_findings_hit": known_hit,
         "failed_clauses": sorted({v["clause"] for v in res["viol"]}),
@@ -717,11 +749,14 @@ def resume_check(prop, tier, seed, work, replay):
     def mc(work, q):
         return [ec.model_check(work, "small" if q else "medium", ["C06"], False)]
     return line_check(prop, tier, seed, work, replay, "ResumeTrace.tla", "holdem-resume", ["-mode", "both", "-seed", str(seed)], mc,
-                      ["runs.always", "runs.cuts", "backendCalls", "refusedCalls", "handsClosed"], False,
+                      ["runs.always", "runs.cuts", "backendCalls", "refusedCalls", "handsClosed", "tg.handsClosed", "tg.TG.Ready", "tg.TG.Pay"], False,
                       ["complete-state equality is computed by the driver on the JSON encodings (timestamps and game id removed)",
                        "the backend instance is created with CreateGame and then given the same deck (nothing is dealt before the first ready)"],
                       "three instances in lock-step (in-memory, re-hydrated from JSON before every call and at scripted cut points, NativeBackend) + a second "
-                      "in-memory run; in the model re-hydration is a stuttering step enabled at every wait point")
+                      "in-memory run; in the model re-hydration is a stuttering step enabled at every wait point; plus whole hands driven through the "
+                      "table layer (table/game.go: ready group, auto-next, every call through the stateless backend) in lock-step with an in-memory game "
+                      "and validated against the model TableGame.tla",
+                      extra=("tablegame-random", ["-runs", 150 if tier == "quick" else 3000, "-seed", seed], "TableGameTrace.tla"))
 
 
 def views_check(prop, tier, seed, work, replay):
